@@ -294,22 +294,26 @@ def _fstring_family_rule(ctx, res) -> None:
     specially (no comment skipping: '#' is ordinary text there), the test names BOTH kinds."""
     idx = ctx.idx
     f = idx.need_func("rope.refactor.patchedast._PatchingASTWalker._handle")
+    from ..cfg import CFG
+    from .common import with_private_helpers
     n = 0
-    for x in walk_local(f.node):
-        if isinstance(x, ast.Call) and call_name(x) == "isinstance" and len(x.args) == 2:
+    sites = [(g, c) for g in with_private_helpers(idx, f) for c in calls_in(g.node) if call_name(c) == "consume_joined_string"]
+    for g, c in sites:
+        cfg = CFG(g.node)
+        # the selection of the special consumption path, read off the CFG: the isinstance test(s) that hold on every
+        # path to the call (however the if/elif/else chain is written)
+        tests = [t for nd in cfg.node_containing(c) for t, pol in cfg.guards(nd.id)
+                 if pol and isinstance(t, ast.Call) and call_name(t) == "isinstance" and len(t.args) == 2]
+        for x in tests:
             ks = x.args[1].elts if isinstance(x.args[1], ast.Tuple) else [x.args[1]]
             names = {(e.attr if isinstance(e, ast.Attribute) else getattr(e, "id", "")) for e in ks}
             if not names & {"JoinedStr", "FormattedValue"}:
                 continue
-            # only the positive selection of the special consumption path (an `elif isinstance(...)` test), not `if not isinstance`
-            par_not = any(isinstance(u, ast.UnaryOp) and isinstance(u.op, ast.Not) and u.operand is x for u in ast.walk(f.node))
-            if par_not:
-                continue
             n += 1
             ok = {"JoinedStr", "FormattedValue"} <= names
-            res.add("R08.9", f"_handle|fstring-family#{n}", ok, f"{f.unit.rel}:{x.lineno}",
+            res.add("R08.9", f"_handle|fstring-family#{n}", ok, f"{g.unit.rel}:{x.lineno}",
                     "the f-string token path is selected for JoinedStr and FormattedValue alike" if ok else
                     f"_handle selects the f-string token path with `{ast.unparse(x)}` only: the tokens of a replacement field ({{, :, format spec, }}) go through "
                     "the ordinary consumer, which takes a '#' in the literal text before the field for a comment start (f\"issue #{n}\"): annotating fails "
-                    "with MismatchedTokenError or regions are taken from a later line", function=f.qualname)
+                    "with MismatchedTokenError or regions are taken from a later line", function=g.qualname)
     res.floor("R08.9", "f-string selections in the token loop", n, 1)
